@@ -64,6 +64,8 @@ structure Cfg where
   nIt : Nat
   nTs : Nat
   divOverrules : Bool := true
+  /-- the model reports `_is_nonlinear_problem() = False`: `_choose_solver` picks `LinearSolver` -/
+  linear : Bool := false
 
 /-- variable values: iterate window and time-step window -/
 structure Sol (V : Type) where
@@ -158,6 +160,22 @@ def newton {V : Type} [Add V] (cfg : Cfg) : Nat → List (Iter V) → Sol V → 
         { r with evs := evs ++ r.evs }
     else ⟨s, k, .maxIter, []⟩
 
+/-- `LinearSolver.solve` (numerics/linear_solvers.py): ONE linear solve; `check_convergence` is called
+    before the increment is applied, its diverged flag is ignored; a converged increment is applied
+    (`after_nonlinear_iteration`, `num_iteration = 1`) and accepted, otherwise `after_nonlinear_failure`
+    is called with the state untouched. -/
+def linearSolve {V : Type} [Add V] (cfg : Cfg) : List (Iter V) → Sol V → NRes V
+  | [], s => ⟨s, 0, .outOfTape, []⟩
+  | it :: _, s =>
+    if it.conv then
+      let s' := afterIteration cfg it.inc s
+      ⟨s', 1, .converged, [NEv.check it.conv it.div, NEv.iter 1 s']⟩
+    else ⟨s, 0, .diverged, [NEv.check it.conv it.div]⟩
+
+/-- `solver.solve(model)` with the solver `_choose_solver` picked -/
+def solveStep {V : Type} [Add V] (cfg : Cfg) (tape : List (Iter V)) (s : Sol V) : NRes V :=
+  if cfg.linear then linearSolve cfg tape s else newton cfg 0 tape s
+
 /-! ### clock -/
 
 /-- What the time loop uses of the time manager.  `accept c k` = `compute_time_step(iterations=k)` in
@@ -169,6 +187,11 @@ structure Clock (C : Type) where
   accept : C → Nat → Except String C
   retry : C → Except String C
   time : C → Rat
+
+/-- the time-manager part of `after_nonlinear_failure`: a linear problem raises
+    `ValueError("Failed to solve linear system …")` before the time manager is asked -/
+def retryOf {C : Type} (clk : Clock C) (cfg : Cfg) (c : C) : Except String C :=
+  if cfg.linear then .error "ValueError" else clk.retry c
 
 /-! ### time loop -/
 
@@ -226,7 +249,7 @@ def stepRun {V C : Type} [Add V] (clk : Clock C) (cfg : Cfg) (r : Run V C) (tape
   | .running =>
     let c1 := clk.advance r.clock
     let bc1 := beforeLoop cfg (clk.time c1) r.bc
-    let res := newton cfg 0 tape r.sol
+    let res := solveStep cfg tape r.sol
     let log1 := r.log ++ [{ tag := "loop", k := 0, sol := r.sol, bc := bc1, clock := c1 : Ev V C }]
       ++ res.evs.map (fun e => nevToEv bc1 c1 e res.sol)
     match res.fin with
@@ -247,7 +270,7 @@ def stepRun {V C : Type} [Add V] (clk : Clock C) (cfg : Cfg) (r : Run V C) (tape
     | .outOfTape =>
       { r with sol := res.sol, bc := bc1, clock := c1, status := .outOfTape, last := .other, log := log1 }
     | _ =>  -- diverged or max iterations: after_nonlinear_failure
-      match clk.retry c1 with
+      match retryOf clk cfg c1 with
       | .ok c2 =>
         let s2 := resetIterate res.sol
         let bc2 := bcRewind bc1
@@ -341,6 +364,12 @@ def absR (x : Rat) : Rat := if x < 0 then -x else x
 def checkConv (tol : Rat) : Val → Bool × Bool
   | .nan => (false, true)
   | .num q => (decide (absR q < tol), false)
+
+/-- `check_convergence` of a LINEAR problem (`_is_nonlinear_problem() = False`): diverged iff the solution
+    contains NaN, converged iff not diverged -/
+def checkConvLinear : Val → Bool × Bool
+  | .nan => (false, true)
+  | .num _ => (true, false)
 
 /-- `SolutionStrategy.check_convergence` of a nonlinear problem with a finite `nl_divergence_tol` and the
     default `nl_convergence_tol_res = inf`, on (increment norm, residual norm) — `none` = NaN in the
